@@ -14,7 +14,7 @@ import (
 //   - n == len(p)                                   (the buffer is full),
 //   - err != io.EOF under err != nil                (a real read error is reported),
 //   - an aborted wait (waitForData false / waitForHW error), which sets the error,
-//   - committed reader only: no next segment (sets an error); getHWPos failed (see below).
+//   - committed reader only: no next segment (sets an error).
 func ruleReadFillsOrFails(c *eng.Ctx) {
 	p := c.P
 	for _, key := range []string{cl + "(*uncommittedReader).Read", cl + "(*committedReader).readLoop"} {
@@ -57,11 +57,57 @@ func ruleReadFillsOrFails(c *eng.Ctx) {
 		accepted := "n == len(p), a read error other than EOF, or an aborted wait"
 		if key == cl+"(*committedReader).readLoop" {
 			cut = append(cut, eng.CmpEdges(fn, eng.Call(-1, cl+"findSegmentByBaseOffset"), eng.NilConst, eng.EQ)...)
-			// getHWPos failing inside the loop leaves through `break` with the outer err still nil (the inner `err` shadows
-			// it). Under the histories the properties quantify over the watermark always lies inside the retained log, so
-			// getHWPos cannot fail there; the exit is accepted by name and recorded in DESIGN.md §11.2 as an observation.
-			cut = append(cut, eng.CmpEdges(fn, eng.Call(2, cl+"getHWPos"), eng.NilConst, eng.NE)...)
-			accepted += ", no next segment, or getHWPos failed"
+			accepted += ", or no next segment"
+		}
+		// a failure of any other step that is handed to the caller: the true edge of `x != nil` for an error x which the
+		// block it leads to stores into the function's error result
+		for _, b := range fn.Blocks {
+			for si := range b.Succs {
+				e := eng.Edge{From: b, Succ: si}
+				fact, okF := eng.FactOn(e)
+				if !okF || !fact.Cmp || fact.Rel != eng.NE {
+					continue
+				}
+				x := fact.X
+				if eng.NilConst(x) {
+					x = fact.Y
+				} else if !eng.NilConst(fact.Y) {
+					continue
+				}
+				if x.Type().String() != "error" {
+					continue
+				}
+				for _, in := range e.To().Instrs {
+					if st, isSt := in.(*ssa.Store); isSt && st.Val == x {
+						if _, isAl := st.Addr.(*ssa.Alloc); isAl {
+							cut = append(cut, e)
+						}
+					}
+				}
+				// without a result cell the error result is a phi: x flows into it from the block the edge leads to
+				flows := func(from, to *ssa.BasicBlock) bool {
+					for _, in := range to.Instrs {
+						ph, isPhi := in.(*ssa.Phi)
+						if !isPhi {
+							break
+						}
+						for i, pe := range ph.Edges {
+							if to.Preds[i] == from && pe == x && ph.Type().String() == "error" {
+								return true
+							}
+						}
+					}
+					return false
+				}
+				if flows(e.From, e.To()) {
+					cut = append(cut, e)
+				}
+				for _, s2 := range e.To().Succs {
+					if len(e.To().Instrs) == 1 && flows(e.To(), s2) {
+						cut = append(cut, e)
+					}
+				}
+			}
 		}
 		var rets []ssa.Instruction
 		for _, r := range eng.Returns(fn) {
